@@ -29,17 +29,22 @@ P10(k) == IF k = 0 THEN 1 ELSE 10 * P10(k - 1)
 BeginUnit(au, bu, def) == IF au # "" THEN au ELSE IF bu # "" THEN bu ELSE def
 EndUnit(au, bu, def)   == IF bu # "" THEN bu ELSE IF au # "" THEN au ELSE def
 
-\* (num/den) * 10^eu  divided by  (pnum/pden) * 10^ep : result as <<kind, value>>
-\* kind \in {"int", "nonint", "overflow"}
+\* (num/den) * 10^eu  divided by  (pnum/pden) * 10^ep : result as <<kind, value>>,
+\* kind \in {"int", "nonint", "overflow"}.  Everything stays below 2^31: inputs are bounded and the powers of
+\* ten are applied one factor at a time with an overflow guard.
+Lim == 200000000
+RECURSIVE MulP10(_, _)
+MulP10(x, k) == IF x < 0 THEN -1 ELSE IF k = 0 THEN x ELSE IF x > Lim \div 10 THEN -1 ELSE MulP10(x * 10, k - 1)
+
 Ratio(num, den, eu, pnum, pden, ep) ==
-  LET k == eu - ep
-      top == IF k >= 0 THEN <<num * pden, k>> ELSE <<num * pden, 0>>
-      bot == IF k >= 0 THEN den * pnum ELSE den * pnum IN
-  IF num > 20000 \/ den > 1000 \/ pnum > 20000 \/ pden > 1000 \/ k > 4 \/ k < -4
+  IF num > 100000 \/ den > 1000 \/ pnum > 100000 \/ pden > 1000 \/ den < 1 \/ pden < 1 \/ pnum < 1 \/ num < 0
     THEN <<"overflow", 0>>
-  ELSE LET n == IF k >= 0 THEN num * pden * P10(k) ELSE num * pden
-           d == IF k >= 0 THEN den * pnum ELSE den * pnum * P10(-k) IN
-       IF d = 0 THEN <<"overflow", 0>>
+  ELSE LET k == eu - ep
+           n0 == num * pden
+           d0 == den * pnum
+           n == IF k >= 0 THEN MulP10(n0, k) ELSE n0
+           d == IF k >= 0 THEN d0 ELSE MulP10(d0, -k) IN
+       IF n < 0 \/ d < 0 THEN <<"overflow", 0>>
        ELSE IF n % d = 0 THEN <<"int", n \div d>> ELSE <<"nonint", 0>>
 
 \* number of samples a discrete-time bound denotes
